@@ -73,6 +73,15 @@ if [ "${1:-}" = "replay" ]; then
   exit $?
 fi
 
+if [ "${1:-}" = "selftest" ]; then
+  # check.sh selftest [N]: determinism self-test of every scenario on a large sample (DESIGN §9.1)
+  build_plain; build_race; build_yield
+  mkdir -p "$W/scratch"
+  "$W/verif" selftest -n "${2:-200}" -seed "$SEED" -scratch "$W/scratch" -out "$HERE/evidence/determinism.json" \
+    -legs "section-ops=$W/verif,frames-clean=$W/verif,frames-faults=$W/verif,builder-hist=$W/verif,tail-acks=$W/verif,readers-r=$W/verif-race,readers-y=$W/verif-yield"
+  exit $?
+fi
+
 PROP="${1:?property id}"
 TIER="${2:-${VERIF_TIER:-quick}}"
 WORKERS=8
